@@ -11,7 +11,7 @@ namespace Cron
 open Cal Odo
 
 theorem C02_minimal (f : Fields) (hwf : WellFormed f = true) (c prev : Int)
-    (hc : -100000 ≤ c ∧ c ≤ 100000) (hp : 0 ≤ prev)
+    (hc : -100000 ≤ c ∧ c ≤ 100000) (hp : -9223372036854775808 ≤ prev)
     (r : Int) (h : nextFire {} f (fixedZone c) prev = .ok r) :
     ∀ u : Int, prev < u → u < r → u % 1000000000 = 0 →
       ¬ Matches f (Civil.ofSeconds (u / 1000000000 + c)) := by
@@ -28,7 +28,7 @@ theorem C02_minimal (f : Fields) (hwf : WellFormed f = true) (c prev : Int)
   exact hleast _ hmu h1 h2
 
 theorem C02_expired_iff (f : Fields) (hwf : WellFormed f = true) (c prev : Int)
-    (hc : -100000 ≤ c ∧ c ≤ 100000) (hp : 0 ≤ prev) :
+    (hc : -100000 ≤ c ∧ c ≤ 100000) (hp : -9223372036854775808 ≤ prev) :
     nextFire {} f (fixedZone c) prev = .expired ↔
       ¬ ∃ u : Int, prev < u ∧ u % 1000000000 = 0 ∧
         Matches f (Civil.ofSeconds (u / 1000000000 + c)) := by
@@ -50,13 +50,13 @@ theorem C02_expired_iff (f : Fields) (hwf : WellFormed f = true) (c prev : Int)
 
 /-- iterating enumerates the matching instants in strictly increasing order, none skipped -/
 theorem C02_chain (f : Fields) (hwf : WellFormed f = true) (c prev : Int)
-    (hc : -100000 ≤ c ∧ c ≤ 100000) (hp : 0 ≤ prev)
+    (hc : -100000 ≤ c ∧ c ≤ 100000) (hp : -9223372036854775808 ≤ prev)
     (r r' : Int) (h : nextFire {} f (fixedZone c) prev = .ok r)
     (h' : nextFire {} f (fixedZone c) r = .ok r') :
     r < r' ∧ ∀ u : Int, r < u → u < r' → u % 1000000000 = 0 →
       ¬ Matches f (Civil.ofSeconds (u / 1000000000 + c)) := by
   have hpr := (C01_sound f hwf c prev hc hp r h).2.1
-  have hr0 : 0 ≤ r := by omega
+  have hr0 : -9223372036854775808 ≤ r := by omega
   exact ⟨(C01_sound f hwf c r hc hr0 r' h').2.1, C02_minimal f hwf c r hc hr0 r' h'⟩
 
 /-! ## Non-vacuity -/
@@ -101,5 +101,30 @@ example : ¬ (nextFire {} exNoon (fixedZone 0) 0 = .expired) ∧
   · rw [exNoon_first]; exact fun h => by cases h
   · exact ⟨43200000000000, by omega, by omega,
       (C01_sound exNoon exNoon_wf 0 0 (by omega) (by omega) _ exNoon_first).2.2⟩
+
+/-! ### a `prev` before 1970 (negative) -/
+
+theorem exEvery_zero : nextFire {} exEvery (fixedZone 0) 0 = .ok 1000000000 := by decide +kernel
+
+/-- `C02_minimal` at a negative `prev`: nothing matching strictly between −0.5 s and the epoch -/
+example : ∀ u : Int, -500000000 < u → u < 0 → u % 1000000000 = 0 →
+    ¬ Matches exEvery (Civil.ofSeconds (u / 1000000000 + 0)) :=
+  C02_minimal exEvery exEvery_wf 0 (-500000000) (by omega) (by omega) _ exEvery_neg
+
+/-- `C02_minimal` with both ends before 1970 -/
+example : ∀ u : Int, -86400000000001 < u → u < -43200000000000 → u % 1000000000 = 0 →
+    ¬ Matches exNoon (Civil.ofSeconds (u / 1000000000 + 0)) :=
+  C02_minimal exNoon exNoon_wf 0 (-86400000000001) (by omega) (by omega) _ exNoon_neg
+
+/-- `C02_chain` from a negative `prev`: the epoch, then 1 s -/
+example : (0 : Int) < 1000000000 ∧ ∀ u : Int, 0 < u → u < 1000000000 → u % 1000000000 = 0 →
+    ¬ Matches exEvery (Civil.ofSeconds (u / 1000000000 + 0)) :=
+  C02_chain exEvery exEvery_wf 0 (-500000000) (by omega) (by omega) _ _ exEvery_neg exEvery_zero
+
+/-- `C02_expired_iff` at a negative `prev`: a match is left, so the trigger is not expired -/
+example : ¬ (nextFire {} exEvery (fixedZone 0) (-500000000) = .expired) := by
+  rw [C02_expired_iff exEvery exEvery_wf 0 (-500000000) (by omega) (by omega)]
+  exact fun h => h ⟨0, by omega, by omega,
+    (C01_sound exEvery exEvery_wf 0 (-500000000) (by omega) (by omega) _ exEvery_neg).2.2⟩
 
 end Cron
